@@ -31,7 +31,8 @@ class Job:
     def __init__(self, name, harness, sources=(), entry='harness', be=False, unwind=70,
                  unwindset=None, defines=(), incs=(), timeout=900, mem_gb=12, object_bits=None,
                  extra=(), meta=None, expect_witness=True, replayable=True, group=None,
-                 extra_files=None, nondet_static=False, backend=None, extra_sources=None):
+                 extra_files=None, nondet_static=False, backend=None, extra_sources=None,
+                 loop_policy=None):
         self.name = name              # unique within a check run
         self.harness = harness        # C source text
         self.sources = list(sources)  # paths relative to REPO (or absolute)
@@ -51,6 +52,7 @@ class Job:
         self.group = group or name
         self.extra_files = dict(extra_files or {})   # name -> text, written next to harness
         self.nondet_static = nondet_static
+        self.loop_policy = loop_policy   # callable(list of loop dicts) -> {loop id: bound}
         self.extra_sources = dict(extra_sources or {})   # name -> C text, compiled with the harness
         self.backend = backend or os.environ.get('VP_BACKEND') or None  # None | 'cadical' | 'kissat' | 'z3' | 'cvc5'
 
@@ -197,6 +199,38 @@ def cbmc_cmd(job, gb, trace_prop=None):
     return cmd
 
 
+def show_loops(gb, wd):
+    """[{id, file, line, function}] of the goto binary (cbmc --show-loops)"""
+    rc, out, err, wall, rss = run_cmd(['cbmc', gb, '--show-loops'], 120, 8, cwd=wd)
+    loops = []
+    cur = None
+    for line in out.decode(errors='replace').splitlines():
+        m = re.match(r'Loop (\S+):', line)
+        if m:
+            cur = {'id': m.group(1), 'file': '', 'line': 0, 'function': ''}
+            loops.append(cur)
+            continue
+        m = re.match(r'\s+file (\S+) line (\d+) function (\S+)', line)
+        if m and cur is not None:
+            cur['file'], cur['line'], cur['function'] = m.group(1), int(m.group(2)), m.group(3)
+    return loops
+
+
+def case_label_of(path, line):
+    """the `case X:` label that textually precedes `line` in a source file (or None)"""
+    try:
+        src = open(path).read().splitlines()
+    except OSError:
+        return None
+    for i in range(min(line, len(src)) - 1, -1, -1):
+        m = re.match(r'\s*case\s+(\w+)\s*:', src[i])
+        if m:
+            return m.group(1)
+        if re.match(r'\s*switch\s*\(', src[i]):
+            return None
+    return None
+
+
 def parse_cbmc_json(text):
     """returns (props, messages, solver_seconds, ok)"""
     try:
@@ -232,6 +266,14 @@ def run_job(job, scratch):
         res.reason = 'goto-cc failed: ' + log[-1500:]
         res.wall = time.time() - t0
         return res
+    if job.loop_policy:
+        try:
+            job.unwindset.update(job.loop_policy(show_loops(gb, wd)))
+        except Exception as e:
+            res.status = 'error'
+            res.reason = 'loop policy failed: %r' % (e,)
+            res.wall = time.time() - t0
+            return res
     cmd = cbmc_cmd(job, gb)
     res.cmd = ' '.join(cmd)
     rc, out, err, wall, rss = run_cmd(cmd, job.timeout, job.mem_gb, cwd=wd)
